@@ -108,6 +108,16 @@ CHECKS = {
              'unknown_title_rejected. Tie B: query-heavy schedules against model and spec; permuted and doubled schedules, grid-vs-single, and _arguments / sizes snapshots on the real code.',
         note='Trusted: as C04; openpyxl column_index_from_string is an external (validated exhaustively in C14).',
         technique='Lean 4 proof (corollaries of the refinement theorem) + differential correspondence + schedule permutation laws on the real code', design='5/C08'),
+    'C09': dict(
+        text='Lean 4 invariant proof over the model of the Parser facade (settings, cached text, dirty flags, early return of _translate): for EVERY dirty-flag table passing the '
+             'decidable coherence check and every translation function, each get_translation / write_translation of any call sequence yields what a fresh parser configured with the '
+             'settings in force yields (facade_coherent_from); the table (which setter assigns which attribute, which flags the early return tests, which _translate clears) is '
+             'regenerated from utilities/parser.py on every run and the check is discharged for it by decide (generated_table_ok), giving facade_coherent, repeat_identical. '
+             'Tie B: all call sequences to length 3/4 + every (change, change) pair + random ones against model and fresh-parser oracle, written file = returned text. '
+             'Byte-determinism across processes, PYTHONHASHSEED values, warm-up translations and 4 concurrent threads is measured on the real code (sha256), not proved: partial for that clause.',
+        note='Trusted: Lean kernel; standard axioms; AST extraction of the flag table; the translation is a parameter of the model (pure function of path, entry, safety) - '
+             'process history / hash seed / thread schedule effects cannot be exhibited by the model and are sampled; the workbook file does not change between calls.',
+        technique='Lean 4 invariant proof over a regenerated flag table (Tie A) + differential correspondence + cross-process/thread determinism sampling', design='5/C09'),
 }
 
 WIP = set()   # built, proofs in progress: not claimed until green
